@@ -27,6 +27,13 @@ type verifFS struct {
 	faults   int
 	log      []string
 	syncedBy map[string]bool // names whose content was synced since the last write
+	yield    bool            // every modelled call is a scheduling point
+}
+
+func (fs *verifFS) sched() {
+	if fs.yield {
+		verifYield()
+	}
 }
 
 var verifTheFS *verifFS
@@ -61,6 +68,7 @@ func (fs *verifFS) step(op string) bool {
 
 func verifModel_os_Create(name string) (*os.File, error) {
 	fs := verifTheFS
+	fs.sched()
 	if !fs.step("create") {
 		return nil, verifErrIO
 	}
@@ -76,6 +84,7 @@ func verifModel_os_Create(name string) (*os.File, error) {
 
 func verifModel_os_File_Write(f *os.File, p []byte) (int, error) {
 	fs := verifTheFS
+	fs.sched()
 	name := fs.handles[f]
 	fs.calls++
 	i := fs.find(name)
@@ -110,6 +119,7 @@ func verifModel_os_File_Write(f *os.File, p []byte) (int, error) {
 
 func verifModel_os_File_Sync(f *os.File) error {
 	fs := verifTheFS
+	fs.sched()
 	if !fs.step("sync:" + fs.handles[f]) {
 		return verifErrIO
 	}
@@ -118,6 +128,7 @@ func verifModel_os_File_Sync(f *os.File) error {
 
 func verifModel_os_File_Close(f *os.File) error {
 	fs := verifTheFS
+	fs.sched()
 	fs.calls++
 	if fs.crashAt == fs.calls {
 		panic(verifCrash{})
@@ -130,6 +141,7 @@ func verifModel_os_File_Name(f *os.File) string { return verifTheFS.handles[f] }
 
 func verifModel_os_Rename(oldpath, newpath string) error {
 	fs := verifTheFS
+	fs.sched()
 	if !fs.step("rename:" + oldpath) {
 		return verifErrIO
 	}
@@ -149,6 +161,7 @@ func verifModel_os_Rename(oldpath, newpath string) error {
 
 func verifModel_os_Remove(name string) error {
 	fs := verifTheFS
+	fs.sched()
 	if !fs.step("remove:" + name) {
 		return verifErrIO
 	}
@@ -162,6 +175,7 @@ func verifModel_os_Remove(name string) error {
 
 func verifModel_os_ReadFile(name string) ([]byte, error) {
 	fs := verifTheFS
+	fs.sched()
 	i := fs.find(name)
 	if i < 0 {
 		return nil, os.ErrNotExist
@@ -179,6 +193,7 @@ func verifModel_os_Open(name string) (*os.File, error) {
 
 func verifModel_os_File_Readdirnames(f *os.File, n int) ([]string, error) {
 	fs := verifTheFS
+	fs.sched()
 	dir := fs.handles[f]
 	var names []string
 	for _, e := range fs.files {
@@ -289,6 +304,100 @@ func verifH_C19_atomic() {
 		v, e := p2.Load(k)
 		verifAssert(e == nil && v != nil, "C19: List reports an entry that Load cannot return")
 		verifAssert(k == key || k == other, "C19: List reports a key that was never saved (spool file?)")
+	}
+	verifReach("end")
+}
+
+// verifH_C19_concurrent: operations on different keys running concurrently,
+// every modelled system call a scheduling point, one call may fail: each
+// operation has exactly the effect it has alone, and a concurrent List + Load
+// sees complete values only.
+func verifH_C19_concurrent() {
+	fs := verifNewFS()
+	p := FileSystem("d")
+	k1, k2 := uint(0x1c003), uint(0x00007)
+	var old1 []byte
+	if verifChoose("old", 2) == 1 {
+		old1 = verifRecord(verifBytes("o", 1), verifU64("oseq"))
+		fs.files = append(fs.files, verifFSFile{name: "d/1c003", content: append([]byte{}, old1...)})
+	}
+	old2 := verifRecord([]byte{9}, 5)
+	fs.files = append(fs.files, verifFSFile{name: "d/00007", content: append([]byte{}, old2...)})
+	b1 := verifBytes("v", 1)
+	t1 := verifBytes("t", 12)
+	v1 := append(append([]byte{}, b1...), t1...)
+	b2 := verifBytes("w", 2)
+	t2 := verifBytes("u", 12)
+	v2 := append(append([]byte{}, b2...), t2...)
+	fs.faults = verifParam("faults", 0)
+	fs.yield = true
+	opB := verifChoose("opB", 3)
+	var errA, errB error
+	doneA := make(chan struct{})
+	doneB := make(chan struct{})
+	go func() {
+		errA = p.Save(k1, [][]byte{b1, t1})
+		close(doneA)
+	}()
+	go func() {
+		switch opB {
+		case 0:
+			errB = p.Save(k2, [][]byte{b2, t2})
+		case 1:
+			errB = p.Delete(k2)
+		case 2:
+			keys, err := p.List()
+			errB = err
+			for _, k := range keys {
+				verifAssert(k == k1 || k == k2, "C19: a concurrent List reports a key that was never saved (spool file?)")
+				v, e := p.Load(k)
+				verifAssert(e == nil, "C19: Load fails next to a concurrent Save")
+				if k == k2 {
+					verifAssert(v != nil && verifBytesEq(v, old2), "C19: a Save of another key disturbed this key")
+				} else {
+					okOld := old1 != nil && v != nil && verifBytesEq(v, old1)
+					okNew := v != nil && verifBytesEq(v, v1)
+					verifAssert(okOld || okNew, "C19: a concurrent reader sees something else than the complete previous or the complete new value")
+				}
+			}
+		}
+		close(doneB)
+	}()
+	<-doneA
+	<-doneB
+	fs.yield = false
+	fs.faults = 0
+	got1, e1 := p.Load(k1)
+	got2, e2 := p.Load(k2)
+	verifAssert(e1 == nil && e2 == nil, "C19: Load fails after concurrent operations")
+	if errA == nil {
+		verifAssert(got1 != nil && verifBytesEq(got1, v1), "C19: Save returned nil next to a concurrent operation on another key but its value is not there")
+	} else {
+		verifAssert((got1 == nil && old1 == nil) || (got1 != nil && old1 != nil && verifBytesEq(got1, old1)), "C19: a failed Save next to a concurrent operation did not leave the previous value")
+	}
+	switch opB {
+	case 0:
+		if errB == nil {
+			verifAssert(got2 != nil && verifBytesEq(got2, v2), "C19: concurrent Saves of different keys disturbed each other")
+		} else {
+			verifAssert(got2 != nil && verifBytesEq(got2, old2), "C19: a failed Save did not leave the previous value (concurrent Save of another key)")
+		}
+	case 1:
+		if errB == nil {
+			verifAssert(got2 == nil, "C19: Delete returned nil but the value is still there (concurrent Save of another key)")
+		} else {
+			verifAssert(got2 != nil && verifBytesEq(got2, old2), "C19: a failed Delete changed the value")
+		}
+	case 2:
+		verifAssert(got2 != nil && verifBytesEq(got2, old2), "C19: a Save disturbed another key")
+	}
+	keys, kerr := p.List()
+	verifAssert(kerr == nil, "C19: List fails")
+	for _, k := range keys {
+		verifAssert(k == k1 || k == k2, "C19: List reports a key that was never saved (spool file left behind?)")
+	}
+	for _, f := range fs.files {
+		verifAssert(len(f.name) == 7, "C19: a spool file is left behind after the operations returned")
 	}
 	verifReach("end")
 }
